@@ -326,12 +326,31 @@ Proof.
   destruct r as [|g r']; [left; reflexivity|]. right. apply (IH (apply_fop s f)). congruence.
 Qed.
 
-Definition hm_ok (hm : hnd * (path -> bool)) : Prop :=
-  match fst hm with HRing => forall p, snd hm p = true -> kind_md p = true | HMirror _ => True end.
-Lemma handlers_ok mc : Forall hm_ok (handlers mc).
+Definition hm_ok (selb : path -> bool) (hm : hnd * (path -> bool)) : Prop :=
+  match fst hm with
+  | HRing => forall p, snd hm p = true -> kind_md p = true
+  | HMirror _ => forall p, snd hm p = true -> selb p = true
+  end.
+Lemma copy_match_selected mc b p : copy_match mc b p = true -> selected mc p = true.
 Proof.
-  unfold handlers. destruct (m_meth mc); repeat constructor; unfold hm_ok; simpl; auto.
+  unfold copy_match, selected.
+  destruct b, (m_drf mc), (m_dmd mc), (kind_rf p), (kind_md p), (pg p =? -1), (pg p =? -2); simpl; auto.
 Qed.
+Lemma mirror_handlers_ok mc : Forall (hm_ok (selected mc)) (mirror_handlers mc).
+Proof.
+  unfold mirror_handlers.
+  assert (C : forall m b, hm_ok (selected mc) (HMirror m, copy_match mc b))
+    by (intros m b p H; simpl in H; eapply copy_match_selected; eauto).
+  destruct (m_meth mc); repeat constructor; auto.
+  destruct (m_drf mc) eqn:D; repeat constructor. intros p H. simpl in H. unfold selected. rewrite D, H. auto.
+Qed.
+Lemma ring_handlers_ok mc selb : Forall (hm_ok selb) (ring_handlers mc).
+Proof.
+  unfold ring_handlers. destruct (m_meth mc); try constructor. destruct (m_dmd mc); repeat constructor.
+  intros p H; exact H.
+Qed.
+Lemma handlers_ok mc : Forall (hm_ok (selected mc)) (handlers mc).
+Proof. unfold handlers. apply Forall_app. split; [apply mirror_handlers_ok | apply ring_handlers_ok]. Qed.
 Definition is_env (e : mev) : Prop := match e with EWrite _ _ | ERemove _ => True | _ => False end.
 
 Lemma minvr_ring s o : MInvR s -> ev_op o -> (forall x, In x (op_paths (ring s) o) -> kind_md x = true) ->
@@ -342,20 +361,21 @@ Proof.
 Qed.
 
 Section Preserve.
+Variable selb : path -> bool.      (* what the mirror handlers may match: the selected kinds *)
 Variable P : mst -> Prop.
 Hypothesis P_view : forall s t, same_view s t -> P s -> P t.
 Hypothesis P_mid : forall s t q c', MInvR s -> P s -> rget q (src s) = Some c' ->
-  up_to_date s q c' = false -> Mid s t q c' -> P t.
+  up_to_date s q c' = false -> selb q = true -> Mid s t q c' -> P t.
 Hypothesis P_ring : forall s o, MInvR s -> P s -> ev_op o ->
   (forall x, In x (op_paths (ring s) o) -> kind_md x = true) -> P (ring_step s o).
 
-Lemma plan_preserves mc m s q : MInvR s -> P s ->
+Lemma plan_preserves mc m s q : selb q = true -> MInvR s -> P s ->
   let l := mirror_plan mc m s q in
   (forall t, In t (states s l) -> P t) /\ P (exec s l) /\ MInvR (exec s l).
 Proof.
-  intros I HP. destruct (plan_states mc m s q I) as (A & B & _). cbn zeta.
+  intros Sq I HP. destruct (plan_states mc m s q I) as (A & B & _). cbn zeta.
   assert (St : forall t, In t (states s (mirror_plan mc m s q)) -> P t).
-  { intros t Ht. destruct (A t Ht) as [V|(c' & E1 & E2 & M)]; [apply (P_view s t V HP) | apply (P_mid s t q c' I HP E1 E2 M)]. }
+  { intros t Ht. destruct (A t Ht) as [V|(c' & E1 & E2 & M)]; [apply (P_view s t V HP) | apply (P_mid s t q c' I HP E1 E2 Sq M)]. }
   split; auto. split; auto.
   destruct (mirror_plan mc m s q) as [|f r] eqn:E; [exact HP|].
   apply St. apply exec_in_states. congruence.
@@ -373,7 +393,7 @@ Lemma nil_preserves s : MInvR s -> P s ->
   (forall t, In t (states s []) -> P t) /\ P (exec s []) /\ MInvR (exec s []).
 Proof. intros I HP. cbn [states exec fold_left In]. tauto. Qed.
 
-Lemma handler_preserves mc hm s e : hm_ok hm -> MInvR s -> P s -> ~ is_env e ->
+Lemma handler_preserves mc hm s e : hm_ok selb hm -> MInvR s -> P s -> ~ is_env e ->
   let l := handler_fops mc hm s e in
   (forall t, In t (states s l) -> P t) /\ P (exec s l) /\ MInvR (exec s l).
 Proof.
@@ -398,7 +418,7 @@ Proof.
     + apply nil_preserves; auto.
 Qed.
 
-Lemma handlers_preserves mc hs : forall s e, Forall hm_ok hs -> MInvR s -> P s -> ~ is_env e ->
+Lemma handlers_preserves mc hs : forall s e, Forall (hm_ok selb) hs -> MInvR s -> P s -> ~ is_env e ->
   let l := handlers_fops mc hs s e in
   (forall t, In t (states s l) -> P t) /\ P (exec s l) /\ MInvR (exec s l).
 Proof.
@@ -434,11 +454,11 @@ Proof.
     + unfold RingMD; cbn [ring]. rewrite step_envremove. exact RM.
 Qed.
 
-Lemma event_preserves mc s e : MInvR s -> P s -> allowed e ->
+Lemma event_preserves mc s e : Forall (hm_ok selb) (handlers mc) -> MInvR s -> P s -> allowed e ->
   let l := event_fops mc s e in
   (forall t, In t (states s l) -> P t) /\ P (exec s l) /\ MInvR (exec s l).
 Proof.
-  intros I HP Al. cbn zeta.
+  intros HO I HP Al. cbn zeta.
   assert (Env : forall f, (exists p c, f = FEnvWrite p c) \/ (exists p, f = FEnvRemove p) ->
                 P (apply_fop s f) ->
                 (forall t, In t (states s [f]) -> P t) /\ P (exec s [f]) /\ MInvR (exec s [f])).
@@ -447,19 +467,19 @@ Proof.
   destruct e; cbn [event_fops].
   - apply Env; [left; eauto|]. apply (P_env s (EWrite p c)); simpl; auto.
   - apply Env; [right; eauto|]. apply (P_env s (ERemove p)); simpl; auto.
-  - apply handlers_preserves; [apply handlers_ok | exact I | exact HP | simpl; tauto].
-  - apply handlers_preserves; [apply handlers_ok | exact I | exact HP | simpl; tauto].
-  - apply handlers_preserves; [apply handlers_ok | exact I | exact HP | simpl; tauto].
-  - apply handlers_preserves; [apply handlers_ok | exact I | exact HP | simpl; tauto].
+  - apply handlers_preserves; [exact HO | exact I | exact HP | simpl; tauto].
+  - apply handlers_preserves; [exact HO | exact I | exact HP | simpl; tauto].
+  - apply handlers_preserves; [exact HO | exact I | exact HP | simpl; tauto].
+  - apply handlers_preserves; [exact HO | exact I | exact HP | simpl; tauto].
 Qed.
 
-Lemma run_preserves mc evs : forall s, MInvR s -> P s -> Forall allowed evs ->
+Lemma run_preserves mc evs : Forall (hm_ok selb) (handlers mc) -> forall s, MInvR s -> P s -> Forall allowed evs ->
   let l := run_fops mc s evs in
   (forall t, In t (states s l) -> P t) /\ P (exec s l) /\ MInvR (exec s l).
 Proof.
-  induction evs as [|e r IH]; intros s I HP F; [cbn [run_fops states exec fold_left In]; tauto|].
+  intros HO. induction evs as [|e r IH]; intros s I HP F; [cbn [run_fops states exec fold_left In]; tauto|].
   inversion F; subst. cbn [run_fops]. cbn zeta.
-  destruct (event_preserves mc s e I HP H1) as (A1 & A2 & A3).
+  destruct (event_preserves mc s e HO I HP H1) as (A1 & A2 & A3).
   destruct (IH (exec s (event_fops mc s e)) A3 A2 H2) as (B1 & B2 & B3).
   rewrite states_app, exec_app. split; [|split; auto].
   intros t Ht. apply in_app_or in Ht. destruct Ht; auto.
@@ -491,8 +511,10 @@ Proof. intros _ F _ _. exact F. Qed.
 Lemma staged_publication mc evs t : In t (mtrace mc evs) -> FinOk t.
 Proof.
   intros H. unfold mtrace in H.
-  destruct (run_preserves FinOk finok_view finok_mid finok_ring (fun _ => True)) with (mc := mc) (evs := evs) (s := minit)
-    as (A & _); auto.
+  destruct (run_preserves (selected mc) FinOk finok_view
+              (fun s t q c' I P0 E U _ M => finok_mid s t q c' I P0 E U M) finok_ring (fun _ => True))
+    with (mc := mc) (evs := evs) (s := minit) as (A & _); auto.
+  2: apply handlers_ok.
   - intros s e I _ Ie _ f Hf.
     assert (MInvR (apply_fop s f)) as ((_ & F & _) & _); auto.
     apply minvr_env; auto. destruct e; simpl in Hf; try contradiction; destruct Hf as [<-|[]]; eauto.
@@ -563,47 +585,85 @@ Lemma mirrored_stable mc evs s : MInvR s -> Stable s -> Forall no_rewrite evs ->
   (forall t, In t (states s (run_fops mc s evs)) -> Stable t) /\ Stable (exec s (run_fops mc s evs)).
 Proof.
   intros I S F.
-  destruct (run_preserves Stable stable_view stable_mid stable_ring no_rewrite stable_env mc evs s I S F) as (A & B & _).
+  destruct (run_preserves (selected mc) Stable stable_view
+              (fun s t q c' I0 P0 E U _ M => stable_mid s t q c' I0 P0 E U M) stable_ring no_rewrite stable_env
+              mc evs (handlers_ok mc) s I S F) as (A & B & _).
   auto.
 Qed.
 End Stable.
 
-Lemma event_mirrors mc s p c (created : bool) : MInvR s -> rget p (src s) = Some c -> mirrorable p = true ->
+Lemma handlers_fops_app mc a : forall b s e,
+  handlers_fops mc (a ++ b) s e = handlers_fops mc a s e ++ handlers_fops mc b (exec s (handlers_fops mc a s e)) e.
+Proof.
+  induction a as [|hm r IH]; intros b s e; cbn [handlers_fops app]; [reflexivity|].
+  cbn zeta. rewrite IH, exec_app, app_assoc. reflexivity.
+Qed.
+
+Lemma selected_cases mc p : selected mc p = true ->
+  copy_match mc true p = true /\ (copy_match mc false p = true \/ (m_drf mc = true /\ kind_rf p = true)).
+Proof.
+  unfold selected, copy_match.
+  destruct (m_drf mc), (m_dmd mc), (kind_rf p), (kind_md p), (pg p =? -1), (pg p =? -2); simpl; intros H;
+    try discriminate; split; auto.
+Qed.
+Lemma selected_matched mc p : selected mc p = true ->
+  exists hm, In hm (mirror_handlers mc) /\ snd hm p = true.
+Proof.
+  intros H. destruct (selected_cases mc p H) as (A & B). unfold mirror_handlers.
+  destruct (m_meth mc).
+  - exists (HMirror Copy, copy_match mc true). split; [left; reflexivity | exact A].
+  - destruct B as [B|[B1 B2]].
+    + exists (HMirror Copy, copy_match mc false). split; [left; reflexivity | exact B].
+    + rewrite B1. exists (HMirror Move, kind_rf). split; [right; left; reflexivity | exact B2].
+  - exists (HMirror Link, copy_match mc true). split; [left; reflexivity | exact A].
+Qed.
+Lemma mirror_handlers_mirror mc hm : In hm (mirror_handlers mc) -> exists m, fst hm = HMirror m.
+Proof.
+  unfold mirror_handlers. destruct (m_meth mc); [| destruct (m_drf mc) |]; cbn [In];
+    intros H; repeat (destruct H as [<-|H]; [eexists; reflexivity|]); destruct H.
+Qed.
+
+(* an event for a file of a selected kind, handled while the source holds content c *)
+Lemma event_mirrors mc s p c (created : bool) : MInvR s -> rget p (src s) = Some c -> selected mc p = true ->
   let e := if created then ECreated p else EModified p in
   Stable p c (exec s (event_fops mc s e)) /\ MInvR (exec s (event_fops mc s e)).
 Proof.
   intros I Hs Hm. cbn zeta.
-  assert (First : forall m, m = Copy \/ m = Link \/ (m = Move) ->
-     let s1 := exec s (mirror_plan mc m s p) in Stable p c s1 /\ MInvR s1).
-  { intros m _. destruct (plan_states mc m s p I) as (_ & I1 & E1 & F1 & G1). cbn zeta.
-    split; [split; [apply F1; auto|] | exact I1].
-    destruct E1 as [[E1 _]|(c' & Hc' & (_ & _ & M3 & _))].
-    - unfold src. rewrite E1. auto.
-    - rewrite Hs in Hc'. inversion Hc'; subst c'. destruct M3 as [M3|[M3 _]]; auto. }
-  assert (Ring : forall s1 o, Stable p c s1 -> MInvR s1 -> ev_op o ->
-                 (forall x, In x (op_paths (ring s1) o) -> kind_md x = true) ->
-                 Stable p c (exec s1 [FRing o]) /\ MInvR (exec s1 [FRing o])).
-  { intros s1 o S1 I1 E Hp. cbn [exec fold_left apply_fop]. split; [apply stable_ring; auto | apply minvr_ring; auto]. }
-  assert (EF : event_fops mc s (if created then ECreated p else EModified p) =
-               handlers_fops mc (handlers mc) s (if created then ECreated p else EModified p))
-    by (destruct created; reflexivity).
+  set (e := if created then ECreated p else EModified p).
+  assert (Ne : ~ is_env e) by (subst e; destruct created; simpl; tauto).
+  assert (EF : event_fops mc s e = handlers_fops mc (handlers mc) s e) by (subst e; destruct created; reflexivity).
   rewrite EF. clear EF.
-  assert (HF : forall hm s0, handler_fops mc hm s0 (if created then ECreated p else EModified p) =
-               if snd hm p then react mc (fst hm) s0 created p else []).
-  { intros [hd mt] s0. destruct created; reflexivity. }
-  unfold handlers. unfold mirrorable in Hm.
-  destruct (kinds_disjoint p) as (K1 & K2 & K3).
-  destruct (m_meth mc); cbn [handlers_fops]; rewrite ?HF; cbn [fst snd]; unfold mirrorable; rewrite ?app_nil_r.
-  - rewrite Hm. cbn [react]. apply First; auto.
-  - (* move *)
-    destruct (kind_md p) eqn:Kmd.
-    + destruct (K1 eq_refl) as [Krf Kpr]. rewrite Krf. cbn [orb app]. cbn [react].
-      destruct (First Copy (or_introl eq_refl)) as (S1 & I1). rewrite exec_app.
-      apply Ring; auto; destruct created; simpl; auto; intros x [<-|[]]; auto.
-    + destruct (kind_prop p) eqn:Kpr.
-      * destruct (K3 eq_refl) as [_ Krf]. rewrite Krf. cbn [orb app react]. rewrite app_nil_r. apply First; auto.
-      * rewrite !orb_false_r in Hm. rewrite Hm. cbn [orb app react exec fold_left]. rewrite app_nil_r. apply First; auto.
-  - rewrite Hm. cbn [react]. apply First; auto.
+  assert (HF : forall hm s0, handler_fops mc hm s0 e = if snd hm p then react mc (fst hm) s0 created p else []).
+  { intros [hd mt] s0. subst e. destruct created; reflexivity. }
+  assert (Pres : forall hs s0, Forall (hm_ok (selected mc)) hs -> MInvR s0 -> Stable p c s0 ->
+            Stable p c (exec s0 (handlers_fops mc hs s0 e)) /\ MInvR (exec s0 (handlers_fops mc hs s0 e))).
+  { intros hs s0 F0 I0 S0.
+    destruct (handlers_preserves (selected mc) (Stable p c) (stable_view p c)
+                (fun s t q c' I1 P0 E U _ M => stable_mid p c s t q c' I1 P0 E U M) (stable_ring p c)
+                mc hs s0 e F0 I0 S0 Ne) as (_ & A & B). auto. }
+  assert (Phase : forall ms s0, (forall hm, In hm ms -> exists m, fst hm = HMirror m) ->
+            Forall (hm_ok (selected mc)) ms -> MInvR s0 ->
+            (Stable p c s0 \/ (rget p (src s0) = Some c /\ exists hm, In hm ms /\ snd hm p = true)) ->
+            Stable p c (exec s0 (handlers_fops mc ms s0 e)) /\ MInvR (exec s0 (handlers_fops mc ms s0 e))).
+  { induction ms as [|hm r IH]; intros s0 Mir F0 I0 [S0|(H0 & hm' & Hin & Hmt)].
+    - apply Pres; auto.
+    - destruct Hin.
+    - apply Pres; auto.
+    - inversion F0; subst. cbn [handlers_fops]. cbn zeta. rewrite exec_app, HF.
+      destruct (snd hm p) eqn:Mp.
+      + destruct (Mir hm (or_introl eq_refl)) as [m Em]. rewrite Em. cbn [react].
+        destruct (plan_states mc m s0 p I0) as (_ & I1 & E1 & F1 & _).
+        apply IH; auto; [intros h0 Hh; apply Mir; right; auto|]. left.
+        split; [apply F1; auto|].
+        destruct E1 as [[E1 _]|(c' & Hc' & (_ & _ & M3 & _))].
+        * unfold src. rewrite E1. auto.
+        * rewrite H0 in Hc'. inversion Hc'; subst c'. destruct M3 as [M3|[M3 _]]; auto.
+      + cbn [exec fold_left]. apply IH; auto; [intros h0 Hh; apply Mir; right; auto|]. right. split; auto.
+        destruct Hin as [<-|Hin]; [rewrite Hmt in Mp; discriminate|]. eauto. }
+  unfold handlers. rewrite handlers_fops_app, exec_app.
+  destruct (selected_matched mc p Hm) as (hm & Hin & Hmt).
+  destruct (Phase (mirror_handlers mc) s (mirror_handlers_mirror mc) (mirror_handlers_ok mc) I) as (S1 & I1); eauto.
+  apply Pres; auto. apply ring_handlers_ok.
 Qed.
 
 (* ------------------------------------------------------------------ runs from the empty state *)
@@ -618,17 +678,15 @@ Proof. unfold mrun. rewrite run_fops_app, exec_app. reflexivity. Qed.
 
 Lemma mrun_minvr mc evs : MInvR (mrun mc evs).
 Proof.
-  destruct (run_preserves (fun _ => True)) with (allowed := fun _ : mev => True) (mc := mc) (evs := evs) (s := minit)
-    as (_ & _ & I); auto.
-  - apply minvr_init.
-  - apply Forall_forall. auto.
+  destruct (run_preserves (selected mc) (fun _ => True)) with (allowed := fun _ : mev => True) (mc := mc) (evs := evs) (s := minit)
+    as (_ & _ & I); auto; try apply handlers_ok; try apply minvr_init; try (apply Forall_forall; auto).
 Qed.
 
 (* C (guarded form of the fidelity statement): once an event for p is handled while the source holds
    p's final content c, the destination holds c under the final name -- and keeps it whatever
    events (duplicated, late, stale, for other files) follow, as long as p is not rewritten *)
 Lemma finalized_mirrored mc pre p c (created : bool) post :
-  rget p (src (mrun mc pre)) = Some c -> mirrorable p = true -> Forall (no_rewrite p c) post ->
+  rget p (src (mrun mc pre)) = Some c -> selected mc p = true -> Forall (no_rewrite p c) post ->
   Full (dget (Fin p) (dst (mrun mc (pre ++ (if created then ECreated p else EModified p) :: post)))) c.
 Proof.
   intros Hs Hm F. rewrite mrun_app. cbn [run_fops]. cbn zeta. rewrite exec_app.
@@ -702,7 +760,9 @@ Lemma never_lost mc evs s : MInvR s -> Holds s -> Forall untouched evs ->
   forall t, In t (states s (run_fops mc s evs)) -> Holds t.
 Proof.
   intros I H F.
-  destruct (run_preserves Holds holds_view holds_mid holds_ring untouched holds_env mc evs s I H F) as (A & _).
+  destruct (run_preserves (selected mc) Holds holds_view
+              (fun s t q c' I0 P0 E U _ M => holds_mid s t q c' I0 P0 E U M) holds_ring untouched holds_env
+              mc evs (handlers_ok mc) s I H F) as (A & _).
   exact A.
 Qed.
 End Holds.
@@ -725,20 +785,57 @@ Qed.
 
 (* ------------------------------------------------------------------ E. move mode copies properties and metadata *)
 Lemma props_and_metadata_copied mc pre p c : m_meth mc = MMove -> kind_md p || kind_prop p = true ->
-  rget p (src (mrun mc pre)) = Some c ->
+  selected mc p = true -> rget p (src (mrun mc pre)) = Some c ->
   Full (dget (Fin p) (dst (mrun mc (pre ++ [ECreated p])))) c /\
   (kind_prop p = true -> rget p (src (mrun mc (pre ++ [ECreated p]))) = Some c).
 Proof.
-  intros Hm Hk Hs. rewrite mrun_app. cbn [run_fops]. cbn zeta. rewrite app_nil_r.
+  intros Hm Hk Sel Hs. rewrite mrun_app. cbn [run_fops]. cbn zeta. rewrite app_nil_r.
   set (s := mrun mc pre) in *. pose proof (mrun_minvr mc pre) as I. fold s in I.
-  assert (Mir : mirrorable p = true).
-  { unfold mirrorable. apply orb_true_iff in Hk. destruct Hk as [-> | ->]; rewrite ?orb_true_r; auto. }
-  split; [apply (event_mirrors mc s p c true I Hs Mir)|].
+  split; [apply (event_mirrors mc s p c true I Hs Sel)|].
   intros Kp. destruct (kinds_disjoint p) as (_ & _ & K3). destruct (K3 Kp) as [Kmd Krf].
-  cbn [event_fops]. unfold handlers. rewrite Hm. cbn [handlers_fops handler_fops].
-  rewrite Kmd, Kp, Krf. cbn [orb app react]. rewrite !app_nil_r.
-  destruct (plan_states mc Copy s p I) as (_ & _ & _ & _ & G1). apply G1; auto. discriminate.
+  assert (Hcopy : rget p (src (exec s (if copy_match mc false p then react mc (HMirror Copy) s true p else []))) = Some c).
+  { destruct (copy_match mc false p); [|exact Hs]. cbn [react].
+    destruct (plan_states mc Copy s p I) as (_ & _ & _ & _ & G1). apply G1; auto. discriminate. }
+  cbn [event_fops]. unfold handlers, mirror_handlers, ring_handlers. rewrite Hm.
+  destruct (m_drf mc), (m_dmd mc); cbn [app handlers_fops handler_fops]; cbn zeta; rewrite ?Krf, ?Kmd; cbn [app];
+    rewrite ?app_nil_r; exact Hcopy.
 Qed.
+
+(* nothing of a deselected kind ever appears under the destination (final or tmp. name) *)
+Section Deselected.
+Variables (mc : mcfg) (p : path).
+Hypothesis desel : selected mc p = false.
+Definition Absent (s : mst) : Prop := dget (Fin p) (dst s) = None /\ dget (Tmp p) (dst s) = None.
+
+Lemma absent_view s t : same_view s t -> Absent s -> Absent t.
+Proof. intros [_ E] A. unfold Absent. rewrite E. exact A. Qed.
+Lemma absent_mid s t q c' : MInvR s -> Absent s -> rget q (src s) = Some c' ->
+  up_to_date s q c' = false -> selected mc q = true -> Mid s t q c' -> Absent t.
+Proof.
+  intros _ [A B] _ _ Sq (M1 & _). assert (Hq : p <> q) by (intros ->; congruence).
+  destruct (M1 p Hq) as (E1 & E2 & _). unfold Absent. rewrite E1, E2. auto.
+Qed.
+Lemma absent_ring s o : MInvR s -> Absent s -> ev_op o ->
+  (forall x, In x (op_paths (ring s) o) -> kind_md x = true) -> Absent (ring_step s o).
+Proof. intros _ A _ _. exact A. Qed.
+Lemma absent_env s e : MInvR s -> Absent s -> is_env e -> True ->
+  forall f, In f (match e with EWrite q c2 => [FEnvWrite q c2] | ERemove q => [FEnvRemove q] | _ => [] end) ->
+  Absent (apply_fop s f).
+Proof.
+  intros _ [A B] Ie _ f Hf.
+  destruct e; simpl in Ie; try contradiction; destruct Hf as [<-|[]]; cbn [apply_fop]; unfold Absent; cbn [dst].
+  - destruct (rget p0 (src s)); [rewrite !dget_relink, A, B|]; auto.
+  - rewrite !dget_relink, A, B. auto.
+Qed.
+Lemma deselected_never_mirrored evs t : In t (mtrace mc evs) -> Absent t.
+Proof.
+  intros H. unfold mtrace in H.
+  destruct (run_preserves (selected mc) Absent absent_view absent_mid absent_ring (fun _ => True) absent_env
+              mc evs (handlers_ok mc) minit minvr_init) as (A & _); auto.
+  - split; reflexivity.
+  - apply Forall_forall. auto.
+Qed.
+End Deselected.
 
 (* ------------------------------------------------------------------ F. the newest metadata file stays in the source *)
 Lemma newest_metadata_stays mc evs d : In d (dels (ring (mrun mc evs))) ->
@@ -765,9 +862,9 @@ Definition final_reported (evs : list mev) (p : path) : option Z :=
   let st := fold_left (upd_reported p) evs (None, false) in if snd st then fst st else None.
 
 Definition finalized_full : Prop := forall mc evs p c,
-  mirrorable p = true -> final_reported evs p = Some c -> Full (dget (Fin p) (dst (mrun mc evs))) c.
+  selected mc p = true -> final_reported evs p = Some c -> Full (dget (Fin p) (dst (mrun mc evs))) c.
 
-Definition wit_mc : mcfg := mkM MMove true true.
+Definition wit_mc : mcfg := mkM MMove true true true true.
 Definition mdA : path := mkP 1 1500000000000 0.
 Definition mdB : path := mkP 1 1500000001000 0.
 Definition wit_evs : list mev :=
@@ -797,11 +894,12 @@ Example ex_move :
   rget (mkP (-1) 0 0) (src s) = Some 1 /\ length (mtrace wit_mc ex_evs) = 23%nat /\
   map (fun d => d_path d) (dels (ring s)) = [mdA].
 Proof. vm_compute. repeat split; reflexivity. Qed.
-Example ex_copy_pre : rget rfA (src (mrun (mkM MCopy true true) [EWrite rfA 7])) = Some 7 /\ mirrorable rfA = true.
-Proof. split; vm_compute; reflexivity. Qed.
+Example ex_copy_pre : rget rfA (src (mrun (mkM MCopy true true true false) [EWrite rfA 7])) = Some 7 /\
+  selected (mkM MCopy true true true false) rfA = true /\ selected (mkM MCopy true true true false) mdA = false.
+Proof. repeat split; vm_compute; reflexivity. Qed.
 Example ex_crossfs_trace :
   map (fun t => (rget rfA (src t), dget (Tmp rfA) (dst t), dget (Fin rfA) (dst t)))
-      (mtrace (mkM MMove false false) [EWrite rfA 1; ECreated rfA]) =
+      (mtrace (mkM MMove false false true true) [EWrite rfA 1; ECreated rfA]) =
   [(Some 1, None, None); (Some 1, Some (mkD 1 false false), None); (Some 1, Some (mkD 1 true false), None);
    (None, Some (mkD 1 true false), None); (None, None, Some (mkD 1 true false))].
 Proof. vm_compute. reflexivity. Qed.
